@@ -21,7 +21,12 @@ def mutate_async(rng, s):
     evs = sorted({e for t in s.trans for e in t.events})
     if ent and evs and s.cur0 is None and rng.random() < 0.5:
         c = rng.choice(ent)
-        if not any(a[5] for a in s.acts if a[1] <= 0 <= a[2]):
+        # (not next to a sibling that raises during the activation: which callbacks of a group ran when another
+        # one of the same group raised is unconstrained, DESIGN 3.2)
+        cbm = {x.id: x for x in s.cbs}
+        raising = any(a[4] is not None and a[1] <= 0 <= a[2] and cbm.get(a[0]) is not None and cbm[a[0]].group == "enter"
+                      for a in s.acts)
+        if not raising and not any(a[5] for a in s.acts if a[1] <= 0 <= a[2]):
             s.acts.insert(0, (c.id, 0, 0, 0, None, [rng.choice(evs) for _ in range(rng.randint(1, 2))]))
 
 
